@@ -7,6 +7,16 @@ ALL = ["C%02d" % i for i in range(1, 21)]
 
 # id -> (engine, category, technique, level text, level note, design ref)
 CHECKS = {
+ "C16": ("inpkg", "exploration",
+   "online monitor (bijection between computed dialog identifier and canonical key) over exhaustively enumerated small alphabets plus random identifiers",
+   "Feeds real parsed messages to the repository's dialog-identifier function and monitors that identifier <-> (Call-ID, unordered {(tag,URI)}) is a bijection across orientation, request/response, decorations and header spellings; exhaustive only within the listed alphabets.",
+   "Trusts the harness's canonical key (SIP URIs compared textually without parameters/headers; other URIs whole).",
+   "5 C16"),
+ "C18": ("inpkg", "exploration",
+   "reference-model monitor (independent glob/precedence lookup) plus stability monitor over enumerated route tables, 50 repeated lookups each",
+   "Every lookup of the real route table is compared with an independent reference (exact > any matching wildcard > default > none) and all repeats on one table must agree; exhaustive within the stated table/host universe, random beyond.",
+   "Where several wildcard entries match, any of them is accepted (the property fixes no order among them) but the answer must be stable.",
+   "5 C18"),
  "C14": ("inpkg", "exploration",
    "reference-model monitor over generated executions (generator's abstract value vs. real decoders/encoders, race-enabled test binary)",
    "Runs the repository's real decoders and encoders on grammar-generated values and compares every accessor and the re-encoded text with the generator's abstract value; held on the generated cases only.",
